@@ -627,7 +627,7 @@ def P5(ctx, facts):
         ctx.check(filt_ok, "IdleConnections::pop|zero-disables-only", "the timeout filter keeps exactly the non-zero timeouts (`> 0`)",
                   "the timeout filter does not have the shape `timeout > 0`: a non-zero timeout may be ignored")
     # callers / plumbing
-    ppop = facts.unit(facts.fn("client::pool::PoolInner::pop"))
+    ppop = facts.unit(facts.fn("client::pool::PoolInner::pop"), expand=True)
     ctx.touched(ppop)
     sites = facts.call_sites_of("client::pool::idle::IdleConnections::pop")
     ctx.floor("IdleConnections::pop|callers", len(sites), 1, "call sites of IdleConnections::pop")
@@ -646,8 +646,9 @@ def P5(ctx, facts):
               "PoolInner::pop returns only what IdleConnections::pop yielded (or None)",
               "PoolInner::pop can return a value from %s" % sorted(map(repr, bad)))
     # every read access to the idle entries goes through pop: no other function reads `Idle.inner`
+    home = {pop.key} | set(pop.inlined)
     for f in facts.fns.values():
-        if f.key == pop.key or f.d.get("derived"):
+        if f.key in home or f.d.get("parent") in home or f.d.get("derived"):
             continue
         for b in f.live:
             for s in f.stmts(b):
